@@ -81,11 +81,83 @@ fn integer_edges(c: &RollCase, st: Stat, obs: &mut Obs) -> CheckResult {
     Ok(())
 }
 
+/// Windows that hold tens of thousands of observations (the whole of a long series, or most of it):
+/// counters, the small-sample corrections n(n-1), (n-1)^2.. and the weights n(n+1)/2 reach 10^9..10^10
+/// there. The series is a pure function of (seed, n) - only the parameters are stored in the case - and
+/// the from-scratch evaluation is made at 24 positions spread over the series plus its last three.
+#[derive(Clone, Debug, serde::Serialize, serde::Deserialize)]
+struct HugeCase {
+    n: usize,
+    seed: u32,
+    wsel: u8,
+    mpsel: u8,
+    nulls: bool,
+}
+
+fn huge_case(_t: Tier) -> impl Strategy<Value = HugeCase> {
+    (30_000usize..=70_000, any::<u32>(), any::<u8>(), any::<u8>(), any::<bool>()).prop_map(|(n, seed, wsel, mpsel, nulls)| HugeCase { n, seed, wsel, mpsel, nulls })
+}
+
+fn check_huge(h: &HugeCase, st: Stat, valid: bool, obs: &mut Obs) -> CheckResult {
+    use tvh::model::expect_series_at;
+    use tvh::rollcheck::{compare_series, eval_plain, eval_valid};
+    let n = h.n;
+    let mix = |i: usize| -> u64 {
+        let mut z = (i as u64).wrapping_add(h.seed as u64).wrapping_mul(0x9E3779B97F4A7C15);
+        z ^= z >> 29;
+        z = z.wrapping_mul(0xBF58476D1CE4E5B9);
+        z ^ (z >> 32)
+    };
+    // dyadic values in [-128, 128): sums of 70 000 of them and of their squares are exact in f64
+    let x: Series = (0..n)
+        .map(|i| {
+            let z = mix(i);
+            if valid && h.nulls && (z >> 40) % 11 == 0 {
+                None
+            } else {
+                Some(((z % 2048) as f64 - 1024.0) / 8.0)
+            }
+        })
+        .collect();
+    let w = match h.wsel % 5 {
+        0 => n,
+        1 => n + 2,
+        2 => n - n / 8,
+        3 => n / 2 + 7,
+        _ => 26_000 + (h.wsel as usize / 5) * 400,
+    };
+    let mp = match h.mpsel % 4 {
+        0 => None,
+        1 => Some(4),
+        2 => Some(w / 3),
+        _ => Some(w.min(n) - 5),
+    };
+    let c = RollCase {
+        x,
+        w,
+        mp,
+        tin: if valid && h.nulls { InT::OptF64 } else { InT::F64 },
+        tout: OutT::F64,
+        class: "huge_window".into(),
+        out_buf: h.mpsel & 0x40 != 0,
+        p: 0.0,
+    };
+    let name = format!("huge:{}{}", if valid { "ts_v" } else { "ts_" }, st.name());
+    let got = if valid { eval_valid(&c, st) } else { eval_plain(&c, st) }.map_err(|e| Fail { sig: format!("{}:out-path", name), detail: e })?;
+    let mut pos: Vec<usize> = (1..=24).map(|k| k * (n - 1) / 24).collect();
+    pos.extend([n - 3, n - 2, 26_754, 26_755, 26_756, 46_340, 46_341, 46_342, 65_535, 65_536].into_iter().filter(|p| *p < n));
+    let exp = expect_series_at(st, &c.x, w, mp, Some(&pos));
+    compare_series(&name, &got, &exp, OutT::F64, n, obs)?;
+    obs.class(["w=len", "w=len+2", "w=7/8 len", "w=len/2", "w=26000.."][(h.wsel % 5) as usize]);
+    obs.set_nontrivial(got.iter().any(|g| g.is_some()));
+    Ok(())
+}
+
 fn main() {
     let mut p = Property::new(
         "C01",
         "cases = (series from value classes x null patterns, window 1..=len+2, min_periods omitted or 0..=w, input element type, output element type, returned/out-buffer path) per entry point; \
-         every position is compared with a from-scratch evaluation of its window. Non-trivial = len > w (at least one removal executed), at least one non-null output, and for the null-aware family on nullable inputs a null inside some window after the first removal; distinct = distinct serialised cases",
+         every position is compared with a from-scratch evaluation of its window; sub-properties price:* draw tick data at a price level (level / spread 1e3..1e7 with level jumps), huge_window:* series of 30 000..=70 000 elements (a pure function of the stored parameters) with windows holding most of the series, compared at ~34 positions (non-trivial there = some non-null output). Non-trivial = len > w (at least one removal executed), at least one non-null output, and for the null-aware family on nullable inputs a null inside some window after the first removal; distinct = distinct serialised cases",
     )
     .assume("inputs are finite; plain family (ts_sum..ts_kurt, ts_fdiff) receives null-free data (DESIGN 5.1)")
     .assume("tolerance = condition-aware bound of DESIGN 5.9 (K=128), EPS variance floor accepted inside its rounding band (5.6)")
@@ -107,6 +179,20 @@ fn main() {
             move |c: &RollCase, obs: &mut Obs| check1(c, st, false, obs),
         ));
         p.add(sub(
+            &format!("price:ts_v{}", st.name()),
+            4000,
+            200000,
+            |tier| roll_case_of(tier, VALID_INS, OUTS, 48, 400, 1, &[13]),
+            move |c: &RollCase, obs: &mut Obs| check1(c, st, true, obs),
+        ));
+        p.add(sub(
+            &format!("price:ts_{}", st.name()),
+            4000,
+            200000,
+            |tier| roll_case_of(tier, PLAIN_INS, OUTS, 48, 400, 1, &[13]).prop_map(null_free),
+            move |c: &RollCase, obs: &mut Obs| check1(c, st, false, obs),
+        ));
+        p.add(sub(
             &format!("long:ts_v{}", st.name()),
             12,
             600,
@@ -120,6 +206,10 @@ fn main() {
             |_| roll_case_long(PLAIN_INS, 20000, 1).prop_map(null_free),
             move |c: &RollCase, obs: &mut Obs| check1(c, st, false, obs),
         ));
+    }
+    for st in stats {
+        p.add(sub(&format!("huge_window:ts_v{}", st.name()), 1, 6, huge_case, move |h: &HugeCase, obs: &mut Obs| check_huge(h, st, true, obs)));
+        p.add(sub(&format!("huge_window:ts_{}", st.name()), 1, 6, huge_case, move |h: &HugeCase, obs: &mut Obs| check_huge(h, st, false, obs)));
     }
     const EDGE_INS: &[InT] = &[InT::I32, InT::OptI32];
     for st in [Stat::Sum, Stat::Mean, Stat::Std, Stat::Wma] {
